@@ -238,10 +238,12 @@ impl Color3f<Rgb> {
         };
         let h = h / 6.0;
         let l = (max + min) / 2.0;
-        let s = if l == 0.0 || l == 1.0 {
+        let s = if d == 0.0 {
+            // Achromatic. Also avoids 0/0 for grays near black and white
             0.0
         } else {
-            d / (1.0 - f32::abs(2.0 * l - 1.0))
+            // The divisor can round to zero near black and white
+            (d / (1.0 - f32::abs(2.0 * l - 1.0))).min(1.0)
         };
 
         for ch in [h, s, l] {
